@@ -516,6 +516,13 @@ static Json::Value genC07(Rng& rng) {
   o.kernelKillP = 0.1;
   o.midTickEdits = true;
   Json::Value plan = genHookKillPlanWith(rng, o);
+  // hooks whose fire() itself takes time: the window can close between two
+  // candidates of one run
+  if (rng.chance(0.3))
+    for (const auto& id : plan["hooks"].getMemberNames())
+      if (rng.chance(0.5))
+        plan["costs"][id] =
+            (Json::Int64)rng.pick<int64_t>({300000000LL, 1000000000LL, 3000000000LL});
   // irregular tick spacing: the prekill window is a span of time, not a
   // number of ticks
   if (rng.chance(0.3)) {
